@@ -223,7 +223,19 @@ def rule_debug(run, prog):
                            "the debug level is combined with other conditions in a test that controls more than printing / "
                            "fatality: findings may differ between -d levels", r)
                 else:
-                    run.ob("R-16.1", key, True, "pure level test", r)
+                    iff = next(a for a in ancestors(r) if isinstance(a, (ast.If, ast.While, ast.IfExp)) and _inside(r, a.test))
+                    if isinstance(iff, ast.IfExp) and {_value_when_debug(test, lv, aliases) for lv in (0, 1, 2)} != {True} \
+                            and {_value_when_debug(test, lv, aliases) for lv in (0, 1, 2)} != {False}:
+                        # a conditional expression chosen by the level has no statements of its own for the region analysis
+                        # below: its value must be something printed, otherwise the level selects data or a way of calling
+                        shown = any(isinstance(a, ast.Call) and (text(a.func) == "print" or text(a.func).endswith("dprint"))
+                                    for a in ancestors(iff))
+                        run.ob("R-16.1", key, shown,
+                               f"the debug level selects the value of `{text(iff, 70)}`, which is not an argument of print / dprint: the "
+                               f"analysis itself (a value, or the way a rule is called -- e.g. one more stack frame under a recursion "
+                               f"limit) depends on -d", r)
+                    else:
+                        run.ob("R-16.1", key, True, "pure level test", r)
                 continue
             in_print = any(isinstance(a, ast.Call) and (text(a.func) == "print" or text(a.func).endswith("dprint")) for a in ancestors(r))
             if isinstance(st, ast.Assign) and len(st.targets) == 1 and isinstance(st.targets[0], ast.Name) and st.targets[0].id in aliases:
